@@ -135,6 +135,7 @@ def structures(tier, seed):
         bw = rng.choice([("X",), ("Y",), ("X", "Y")])
         rules = {"X": rng.choice(["fill", "extend", "periodic"]), "Y": rng.choice(["fill", "extend", "periodic"])}
         out.append(mk(kind, entry, bw, rules, rng.choice(["none", "none", "before", "after"])))
+        out[-1]["sid"] = "rnd:" + out[-1]["sid"]
     if tier == "thorough":
         # all 5^4 = 625 slot shapes x 3 input kinds under one rule assignment
         for combo in itertools.product([None] + LINK_KINDS, repeat=4):
